@@ -181,6 +181,12 @@ def Sh.distSq? (s : Sh) (p : Q3) : Option Rat :=
   | .cone hh r =>
       -- by rotational symmetry: distance in the (radial, axial) half-plane to the triangle (-r,-hh) (r,-hh) (0,hh)
       some (distSqTriangle ⟨sqrtQ (p.x * p.x + p.z * p.z), p.y, 0⟩ ⟨-r, -hh, 0⟩ ⟨r, -hh, 0⟩ ⟨0, hh, 0⟩)
+  | .poly3 pts =>
+      -- full-dimensional hull: 0 inside, else the nearest of all vertex triangles (every face is a union of such)
+      if memPoly3 pts p 0 then some 0 else
+      match (triples pts).map fun (a, b, c) => distSqTriangle p a b c with
+      | [] => none
+      | e :: es => some (es.foldl minQ e)
   | .polygon pts =>
       -- planar convex polygon: 0 inside, else the nearest edge
       let es := (pts.zip (pts.rotateLeft 1)).map fun (a, b) => distSqSeg p a b
@@ -200,8 +206,8 @@ def Sh.mem (s : Sh) (p : Q3) (tol : Rat) : Bool :=
   match s with
   | .round i r => match i.distSq? p with
       | some d2 => d2 ≤ (r + tol) * (r + tol)
-      -- no closed-form distance (3-D hull): offset every face plane by `r` (a superset near edges and vertices)
-      | none => i.mem p (r + tol)
+      -- no exact distance for the core (ball/capsule/half-space cores are never rounded by the generators): core only
+      | none => i.mem p tol
   | .ball r => p.normSq ≤ (r + tol) * (r + tol)
   | .cuboid he => absQ p.x ≤ he.x + tol && absQ p.y ≤ he.y + tol && absQ p.z ≤ he.z + tol
   | .capsule a b r => distSqSeg p a b ≤ (r + tol) * (r + tol)
